@@ -415,6 +415,23 @@ pub fn threshold_windows(cyc: &Cycle, thorough: bool) -> Vec<(i64, i64)> {
             }
         }
     }
+    // epochs shifted by whole 400-year cycles (algorithms that add K cycles to make the day count non-negative): the day on
+    // which the shifted count reaches 2^29 .. 2^32 (where 4 x days + 3 leaves 32 bits), for every K in +-20 000 (thorough:
+    // every K for which the day lies in the supported range)
+    {
+        let cd = refmodel::cal::CYCLE_DAYS;
+        let kmax: i64 = if thorough { (max_day - min_day) / cd + 2 } else { 20_000 };
+        for base in [11017i64, 0] {
+            for k in -kmax..=kmax {
+                for p in [29u32, 30, 31, 32] {
+                    let d = base - k * cd + (1i64 << p);
+                    if d - 1 >= min_day && d + 1 <= max_day {
+                        v.push((d - 1, 3));
+                    }
+                }
+            }
+        }
+    }
     for k in 10..=56 {
         for sgn in [1i64, -1] {
             let d = refmodel::cal::floor_div(sgn * (1i64 << k), SECS_PER_DAY);
@@ -767,8 +784,8 @@ pub fn run(args: &Args) -> i32 {
         total = total.merge(sweep_years(&cyc, &rec, thorough));
     } else {
         total = total.merge(sweep_out_of_range(&cyc, &rec, thorough));
-        total = total.merge(sweep_wrap_totals(&cyc, &rec));
     }
+    total = total.merge(sweep_wrap_totals(&cyc, &rec));
     rec.add(total.evals, total.nontrivial);
     rec.add_model(total.states, total.steps, total.evals);
     rec.digest("cal", total.digest);
